@@ -47,6 +47,8 @@ class GpioWorld(World):
             pc = rng.range(1, 2 * dw + 1)
         else:
             pc = rng.range(1, 20)
+        if rng.chance(0.006):
+            pc = rng.choice([65, 129, 140, 258])      # very wide ports (few operations)
         def p2(x):
             return 1 << (max(1, x) - 1).bit_length()
         s1, s2 = p2((2 * pc + dw - 1) // dw), p2((pc + dw - 1) // dw)
@@ -60,7 +62,7 @@ class GpioWorld(World):
         dw, aw = config["dw"], config["aw"]
         ops = []
         p_rst = rng.choice([0, 0, 0.25])
-        for _ in range(rng.range(15, 45)):
+        for _ in range(rng.range(15, 45) if config["pc"] < 64 else rng.range(3, 6)):
             k = rng.below(100)
             if k < 10:
                 ops.append({"k": "idle", "n": rng.range(1, 2)} if not rng.chance(p_rst)
